@@ -50,6 +50,33 @@ def run(ctx):
             ok, why = check_envelope_path(o, msg)
             ctx.add('R1.envelope-path', dp + '|' + path_sig(o), loc(B.root), ok, why)
 
+    # R1.message-id-exact: how the content octets of the messageID element become the RequestId is decided by literal evaluation of
+    # the decoder itself (whatever reads them: parse_uint, a helper, a loop): with the primitive content of the INTEGER element fixed
+    # to a literal octet string, every path that delivers a message delivers it under exactly the number those octets denote as a
+    # two's-complement INTEGER, and that number is a MessageID (0 .. maxInt); anything else is rejected.  The minimal encodings of
+    # valid IDs are accepted.  (An ID read modulo 2^64 or 2^32, or a negative one read unsigned, is delivered to the operation
+    # whose ID the truncated number happens to be.)
+    for dp in decs:
+        B = hirq.Body(f, f.hir[dp])
+        wrong, n_eval = [], 0
+        for octets in id_vectors():
+            v = int.from_bytes(octets, 'big', signed=True) if octets else None
+            valid = v is not None and 0 <= v <= 2**31 - 1
+            minimal = valid and octets == v.to_bytes(max(1, (v.bit_length() + 8) // 8), 'big', signed=True)
+            delivered = []
+            for o in eval_decoder_with_id_content(f, B, octets):
+                n_eval += 1
+                w = o.val
+                if o.kind in ('val', 'ret') and w[0] == 'ctor' and w[1] == 'Ok' and w[2] and w[2][0][0] == 'ctor' and w[2][0][1] == 'Some':
+                    msg = w[2][0][2][0]
+                    delivered.append(msg[1][0] if msg[0] == 'tuple' and msg[1] else ('unk', 'shape'))
+            bad = [d for d in delivered if not (valid and d == ('lit', v))]
+            if bad or (minimal and not delivered):
+                wrong.append((octets.hex() or '(empty)', sorted({absx.fmt(d)[:30] for d in delivered}) or 'rejected', v if valid else 'not a MessageID'))
+        ctx.add('R1.message-id-exact', dp, loc(B.root), not wrong and n_eval > 0,
+                'the messageID is not read exactly: with the content octets of the INTEGER element fixed to literal strings, %d of %d strings are delivered under a number '
+                'that is not the MessageID they denote, or a valid minimal encoding is rejected; (octets, delivered as, denotes): %s' % (len(wrong), len(id_vectors()), wrong[:5]))
+
     # ------------------------------------------------------------------ response arm
     resp = C.arms['response']
     rbody = resp['body']
@@ -352,6 +379,23 @@ def path_sig(o):
         elif a[0] == 'is' and a[2].startswith('PL::'):
             parts.append(('' if t else '!') + a[2])
     return ','.join(parts) or 'plain'
+
+def id_vectors():
+    vecs = [b'', b'\x00', b'\x01', b'\x7f', b'\x80', b'\xff', b'\x00\x80', b'\x00\xff', b'\x01\x00', b'\x7f\xff', b'\x80\x00', b'\xff\xff',
+            b'\x00\x80\x00', b'\x01\x00\x00', b'\x7f\xff\xff\xff', b'\x00\x80\x00\x00\x00', b'\x80\x00\x00\x00', b'\x00\xff\xff\xff\xff', b'\x01\x00\x00\x00\x01',
+            b'\x00\x00\x00\x01', b'\x00\x00\x00\x00\x00\x00\x00\x02', b'\x01\x00\x00\x00\x00\x00\x00\x02', b'\xff\xff\xff\xff\xff\xff\xff\xff',
+            b'\x01\x00\x00\x00\x00\x00\x00\x00\x02', b'\x00\x00\x00\x00\x00\x00\x00\x00\x02', b'\x01' + b'\x00' * 11 + b'\x03', b'\x7f' + b'\xff' * 7, b'\x80' + b'\x00' * 7]
+    return sorted(set(vecs), key=lambda x: (len(x), x))
+
+def eval_decoder_with_id_content(f, B, octets):
+    """the decoder's paths with the primitive content of the element that had to be a universal INTEGER fixed to a literal"""
+    def is_id_element(t):
+        return sem.has(t, lambda x: x[0] == 'call' and x[1].endswith('::match_id') and len(x[2]) == 2 and x[2][1] in (('lit', 2), ('cast', ('ctor', 'Types::Integer', ()), 'u64')))
+    def content(I, cal, args, node, st):
+        if cal.endswith('::expect_primitive') and len(args) == 1 and is_id_element(args[0]):
+            return [absx.Out('val', ('ctor', 'Some', (('lit', octets),)), st)]
+        return None
+    return absx.Interp(f, B, summaries=[content], unroll=16, inline=lambda c: c == 'lber::parse::parse_uint', combinators=True).run()
 
 def bounded_above(pc, x, limit):
     """the path condition holds a comparison of x with a literal that implies x <= limit"""
